@@ -20,6 +20,7 @@
    Vocabulary (Proofs/GrpcP.v):
      names_distinct svc    NoDup of the proto method names (protoc guarantees it)
      pynames_distinct svc  NoDup of the Python method names the plugin derives (NOT guaranteed: K8)
+     owns svc m            m is the last method of the service with its Python name
      arg_ok m a            the caller passes one message of the declared request class (unary) or a
                            stream of them (client streaming)
      produced ss h inp     the responses a handler body yields/returns, then the status it raises
@@ -53,6 +54,13 @@ Theorem C11_routes_exact : forall svc, names_distinct svc ->
 Proof. exact stub_lookup_exact. Qed.
 Print Assumptions C11_routes_exact.
 
+(* ... and per method: the stub attribute named after m is m's own stub method IF AND ONLY IF m is the
+   last method of the service with that Python name ([owns]: later `def`s replace earlier ones) *)
+Theorem C11_stub_attr_exact : forall svc m, names_distinct svc -> In m (s_methods svc) ->
+  (assoc_last (stub_class svc) (m_py m) = Some (stub_method svc m) <-> owns svc m).
+Proof. exact stub_attr_iff_owns. Qed.
+Print Assumptions C11_stub_attr_exact.
+
 (* every entry of __mapping__ names an adapter and a method body that exist *)
 Theorem C11_mapping_closed : forall svc r e,
   dispatch (mapping svc) r = Some e ->
@@ -85,6 +93,29 @@ Theorem C11_payload : forall svc im skw ckw m h a,
     Some (expected_obs svc m skw ckw a (produced (m_ss m) h (hin_of a))).
 Proof. exact payload. Qed.
 Print Assumptions C11_payload.
+
+(* the same under the weakest condition on Python names: m is the last method with its name
+   (so in a service with a collision the surviving RPC still works end to end) *)
+Theorem C11_payload_owner : forall svc im skw ckw m h a,
+  names_distinct svc -> owns svc m ->
+  im (m_py m) = Some h -> arg_ok m a -> handler_ok m h (hin_of a) ->
+  call svc im skw (m_py m) a ckw =
+    Some (expected_obs svc m skw ckw a (produced (m_ss m) h (hin_of a))).
+Proof. exact payload_owner. Qed.
+Print Assumptions C11_payload_owner.
+
+(* server side alone, for ANY client that opens m's route with messages of the declared class (not
+   only the generated stub): exactly m's handler runs, once, on those requests; what it produced
+   goes on the wire in order, then its status *)
+Theorem C11_server_side : forall svc im m h reqs,
+  names_distinct svc -> owns svc m -> im (m_py m) = Some h ->
+  typed (m_in m) reqs ->
+  handler_ok m h (adapter_input (m_cs m) reqs) ->
+  let p := produced (m_ss m) h (adapter_input (m_cs m) reqs) in
+  serve svc im (route svc m) (map snd reqs) =
+    SOut [(m_py m, adapter_input (m_cs m) reqs)] (map snd (fst p)) (snd p).
+Proof. exact server_side. Qed.
+Print Assumptions C11_server_side.
 
 (* a method the subclass does not override answers UNIMPLEMENTED, whatever the cardinality *)
 Theorem C11_unimplemented : forall svc im skw ckw m a,
@@ -191,3 +222,13 @@ Example C11_ex_unimplemented :
 Proof. vm_compute. reflexivity. Qed.
 Example C11_ex_kwargs : resolve_kwargs (Kw (Some 11) (Some 21) None) (Kw None (Some 22) (Some 32)) = Kw (Some 11) (Some 22) (Some 32).
 Proof. reflexivity. Qed.
+(* the surviving method of a colliding pair still works end to end (hypotheses of C11_payload_owner) *)
+Example C11_ex_owner :
+  owns collide m_get_foo /\ ~ pynames_distinct collide /\
+  option_map ob_res (call collide (fun _ => Some (HGen (fun _ => ([o_msg; o_msg], None)))) kw0 (m_py m_get_foo) (ArgOne a_msg) kw0)
+    = Some (CRes [o_msg; o_msg] CDone).
+Proof.
+  split; [exists [m_GetFoo], []; split; [reflexivity | intros []]|].
+  split; [|vm_compute; reflexivity].
+  unfold pynames_distinct. cbn. intros H. inversion H as [|? ? Hn _]. apply Hn. left. reflexivity.
+Qed.
